@@ -5,6 +5,7 @@
 package fam
 
 import (
+	"strings"
 	"time"
 
 	"gorm.io/gorm"
@@ -135,6 +136,27 @@ func call(hook, model string, rec interface{}, tx *gorm.DB) error {
 	return Sink(HookCall{hook, model, rec, tx})
 }
 
+// NoHook lists the hooks a model does NOT define: the models carry different
+// subsets, so that a hook of one kind is never implied by another kind being
+// present (User, Pet and Note define all of them).
+var NoHook = map[string]map[string]bool{
+	"Toy":      {"BeforeSave": true, "AfterSave": true},
+	"Language": {"BeforeCreate": true, "AfterCreate": true, "BeforeUpdate": true, "AfterUpdate": true},
+	"Account":  {"AfterCreate": true, "AfterUpdate": true, "AfterSave": true},
+	"Company":  {"BeforeSave": true, "BeforeCreate": true, "BeforeUpdate": true},
+}
+
+// HookPattern removes from a comma separated hook sequence the hooks model does not define.
+func HookPattern(model, pattern string) string {
+	var out []string
+	for _, h := range strings.Split(pattern, ",") {
+		if !NoHook[model][h] {
+			out = append(out, h)
+		}
+	}
+	return strings.Join(out, ",")
+}
+
 func (m *User) BeforeSave(tx *gorm.DB) error   { return call("BeforeSave", "User", m, tx) }
 func (m *User) BeforeCreate(tx *gorm.DB) error { return call("BeforeCreate", "User", m, tx) }
 func (m *User) AfterCreate(tx *gorm.DB) error  { return call("AfterCreate", "User", m, tx) }
@@ -145,10 +167,7 @@ func (m *User) BeforeDelete(tx *gorm.DB) error { return call("BeforeDelete", "Us
 func (m *User) AfterDelete(tx *gorm.DB) error  { return call("AfterDelete", "User", m, tx) }
 func (m *User) AfterFind(tx *gorm.DB) error    { return call("AfterFind", "User", m, tx) }
 
-func (m *Company) BeforeSave(tx *gorm.DB) error   { return call("BeforeSave", "Company", m, tx) }
-func (m *Company) BeforeCreate(tx *gorm.DB) error { return call("BeforeCreate", "Company", m, tx) }
 func (m *Company) AfterCreate(tx *gorm.DB) error  { return call("AfterCreate", "Company", m, tx) }
-func (m *Company) BeforeUpdate(tx *gorm.DB) error { return call("BeforeUpdate", "Company", m, tx) }
 func (m *Company) AfterUpdate(tx *gorm.DB) error  { return call("AfterUpdate", "Company", m, tx) }
 func (m *Company) AfterSave(tx *gorm.DB) error    { return call("AfterSave", "Company", m, tx) }
 func (m *Company) BeforeDelete(tx *gorm.DB) error { return call("BeforeDelete", "Company", m, tx) }
@@ -157,10 +176,7 @@ func (m *Company) AfterFind(tx *gorm.DB) error    { return call("AfterFind", "Co
 
 func (m *Account) BeforeSave(tx *gorm.DB) error   { return call("BeforeSave", "Account", m, tx) }
 func (m *Account) BeforeCreate(tx *gorm.DB) error { return call("BeforeCreate", "Account", m, tx) }
-func (m *Account) AfterCreate(tx *gorm.DB) error  { return call("AfterCreate", "Account", m, tx) }
 func (m *Account) BeforeUpdate(tx *gorm.DB) error { return call("BeforeUpdate", "Account", m, tx) }
-func (m *Account) AfterUpdate(tx *gorm.DB) error  { return call("AfterUpdate", "Account", m, tx) }
-func (m *Account) AfterSave(tx *gorm.DB) error    { return call("AfterSave", "Account", m, tx) }
 func (m *Account) BeforeDelete(tx *gorm.DB) error { return call("BeforeDelete", "Account", m, tx) }
 func (m *Account) AfterDelete(tx *gorm.DB) error  { return call("AfterDelete", "Account", m, tx) }
 func (m *Account) AfterFind(tx *gorm.DB) error    { return call("AfterFind", "Account", m, tx) }
@@ -175,21 +191,15 @@ func (m *Pet) BeforeDelete(tx *gorm.DB) error { return call("BeforeDelete", "Pet
 func (m *Pet) AfterDelete(tx *gorm.DB) error  { return call("AfterDelete", "Pet", m, tx) }
 func (m *Pet) AfterFind(tx *gorm.DB) error    { return call("AfterFind", "Pet", m, tx) }
 
-func (m *Toy) BeforeSave(tx *gorm.DB) error   { return call("BeforeSave", "Toy", m, tx) }
 func (m *Toy) BeforeCreate(tx *gorm.DB) error { return call("BeforeCreate", "Toy", m, tx) }
 func (m *Toy) AfterCreate(tx *gorm.DB) error  { return call("AfterCreate", "Toy", m, tx) }
 func (m *Toy) BeforeUpdate(tx *gorm.DB) error { return call("BeforeUpdate", "Toy", m, tx) }
 func (m *Toy) AfterUpdate(tx *gorm.DB) error  { return call("AfterUpdate", "Toy", m, tx) }
-func (m *Toy) AfterSave(tx *gorm.DB) error    { return call("AfterSave", "Toy", m, tx) }
 func (m *Toy) BeforeDelete(tx *gorm.DB) error { return call("BeforeDelete", "Toy", m, tx) }
 func (m *Toy) AfterDelete(tx *gorm.DB) error  { return call("AfterDelete", "Toy", m, tx) }
 func (m *Toy) AfterFind(tx *gorm.DB) error    { return call("AfterFind", "Toy", m, tx) }
 
 func (m *Language) BeforeSave(tx *gorm.DB) error   { return call("BeforeSave", "Language", m, tx) }
-func (m *Language) BeforeCreate(tx *gorm.DB) error { return call("BeforeCreate", "Language", m, tx) }
-func (m *Language) AfterCreate(tx *gorm.DB) error  { return call("AfterCreate", "Language", m, tx) }
-func (m *Language) BeforeUpdate(tx *gorm.DB) error { return call("BeforeUpdate", "Language", m, tx) }
-func (m *Language) AfterUpdate(tx *gorm.DB) error  { return call("AfterUpdate", "Language", m, tx) }
 func (m *Language) AfterSave(tx *gorm.DB) error    { return call("AfterSave", "Language", m, tx) }
 func (m *Language) BeforeDelete(tx *gorm.DB) error { return call("BeforeDelete", "Language", m, tx) }
 func (m *Language) AfterDelete(tx *gorm.DB) error  { return call("AfterDelete", "Language", m, tx) }
